@@ -182,6 +182,21 @@ def _guarded_by_alias(f, call, e):
     return False
 
 
+def _dead_under_none_test(f, call, ty):
+    """the call sits in the true branch of `if x:` at which x is known to be None (the tail of a split copied into the arm that set
+    `x = None`): that branch never runs"""
+    prev = call
+    for p in parent_chain(call):
+        if isinstance(p, ast.If) and isinstance(p.test, ast.Name) and any(prev is s_ or any(prev is z for z in ast.walk(s_)) for s_ in p.body):
+            cn = next((c for c in ty.cfg.nodes if c.kind == "test" and c.ast is p and c.id in ty.state), None)
+            if cn is not None and ty.type_of(p.test, ty.env_at(cn)) == NONE:
+                return True
+        if isinstance(p, (ast.FunctionDef, ast.AsyncFunctionDef)):
+            break
+        prev = p
+    return False
+
+
 def _none_default_cannot_reach(f, call, ty):
     """the item handed to the factory is a local that is None only through an explicit `x = None` default, and no path through the
     enclosing loop body carries that default to the call (`inner_pin = None … port = inner_pin.port if inner_pin else None … if port:`)"""
@@ -291,6 +306,53 @@ def _h_owner_ties(ctx, R, iv):
     R.floor("upward steps of is_valid (H14)", 4)
 
 
+def _locals_written_out(f):
+    """f with every local that is bound exactly once to a plain read (attribute chain, slice, sum of such) written out where it is
+    used — `instance_names = name_stack[1:]` … `"/".join(instance_names + […])` reads as the join of `name_stack[1:] + […]`.  Used by
+    rules that ask what a name is made of, not when it was computed."""
+    from ..core import copy_tree, FuncInfo
+    node = copy_tree(f.node)
+    stores, defs = {}, {}
+    for n in ast.walk(node):
+        if isinstance(n, ast.Name) and not isinstance(n.ctx, ast.Load):
+            stores[n.id] = stores.get(n.id, 0) + 1
+    params = {a.arg for a in node.args.args}
+
+    def plain(e):
+        if isinstance(e, (ast.Name, ast.Constant)):
+            return True
+        if isinstance(e, ast.Attribute):
+            return plain(e.value)
+        if isinstance(e, ast.Subscript):
+            return plain(e.value) and all(isinstance(x, (ast.Slice, ast.Constant, ast.Name, ast.Load, ast.UnaryOp, ast.USub)) for x in ast.walk(e.slice))
+        if isinstance(e, ast.BinOp) and isinstance(e.op, ast.Add):
+            return plain(e.left) and plain(e.right)
+        return False
+    for n in ast.walk(node):
+        if isinstance(n, ast.Assign) and len(n.targets) == 1 and isinstance(n.targets[0], ast.Name) and stores.get(n.targets[0].id) == 1 \
+                and n.targets[0].id not in params and plain(n.value) and not isinstance(n.value, (ast.Name, ast.Constant)):
+            defs[n.targets[0].id] = n.value
+    if not defs:
+        return f
+
+    class S(ast.NodeTransformer):
+        depth = 0
+
+        def visit_Name(self, n):
+            if isinstance(n.ctx, ast.Load) and n.id in defs and self.depth < 4:
+                self.depth += 1
+                r = self.visit(copy_tree(defs[n.id]))
+                self.depth -= 1
+                return ast.copy_location(r, n)
+            return n
+    S().visit(node)
+    ast.fix_missing_locations(node)
+    for parent in ast.walk(node):
+        for child in ast.iter_child_nodes(parent):
+            child._parent = parent
+    return FuncInfo(f.name, f.qualname, f.module, f.cls, node, f.role, f.prop)
+
+
 def _boolean_valued(e):
     from ..unroll import _boolean
     return _boolean(e)
@@ -373,7 +435,7 @@ def _typed_sites(ctx, R, rid, closure):
         tys = {id(c): ty_ for f_, c, pt_, it_, ty_ in sites if f_ is f}
         nullcap = {id(c) for c, it in calls if _nullable(it) and not _guarded_by_alias(f, c, c.args[1])
                    and not (isinstance(c.args[1], ast.Attribute) and c.args[1].attr in ("instance", "inner_pin"))
-                   and not _none_default_cannot_reach(f, c, tys[id(c)])}
+                   and not _none_default_cannot_reach(f, c, tys[id(c)]) and not _dead_under_none_test(f, c, tys[id(c)])}
         if not nullcap:
             continue
         memo = {}
@@ -758,11 +820,14 @@ def _leaf_pruning(ctx, R, rid, closure):
           "item kind of the grammar; H6 the name-map walkers and HRef.name agree on separator, top-name slice and bus suffix; H7 the "
           "downward search descends into a child that is both a target and an ancestor of a target; H8 the ancestor walks of "
           "is_valid/is_unique use the cursor, not self; H7b both work lists re-queue what they discover and nothing but `already in the set` can keep an ancestor out of the bound set; H11 every yield is de-duplicated on the value it yields and the already-returned set is subtracted from the name-map set after its last insertion; H12 a reference taken from the work list is used only after its validity test, for every item kind (must-dataflow); H13 the wire / cable enumerations prune their descent by is_leaf(), never by the absence of child instances (a cell may consist of wires only); H14 every upward step of is_valid ties the parent reference's item to the element's current owner (path enumeration), and every value is_valid returns is a genuine boolean. Decides canonical-object and well-formedness clauses; completeness/uniqueness of "
-          "the enumeration is a graph property and is not decided.")
+          "the enumeration is a graph property and is not decided. H16 inside a loop over siblings the parent of a yielded reference is not a name the loop body rebinds to a reference built under itself; H17 the name maps record every element (no `setdefault(k, [x])` with the result discarded).")
 def check_c11(ctx, R):
     P = ctx.P
     hm = P.module(HREF)
     hc = P.cls(HREF, "HRef")
+    _no_loop_carried_parent(ctx, R, "H16", closure=None)
+    from .query_rules import multimap_inserts
+    multimap_inserts(P, R, "H17", [P.module(UTIL + m + ".py") for m in H_MODULES])
     R.rule("H1", "factory-only construction through the flyweight table")
     ctor_sites = []
     for rel, mod in sorted(P.modules.items()):
@@ -917,6 +982,7 @@ def check_c11(ctx, R):
         for fn, f in mod.functions.items():
             if fn.startswith("_update_") and fn.endswith("namemap"):
                 walkers += 1
+                f = _locals_written_out(f)
                 src = norm(f.node)
                 joins = [c for c in walk_local(f.node) if isinstance(c, ast.Call) and isinstance(c.func, ast.Attribute) and c.func.attr == "join" and isinstance(c.func.value, ast.Constant)]
                 if not joins:
@@ -957,6 +1023,13 @@ def check_c11(ctx, R):
     pushes = []
     for sf, tgt_ in searchers:
         worklists = {norm(w.test) for w in walk_local(sf.node) if isinstance(w, ast.While) and isinstance(w.test, ast.Name)}
+        # a batch: a local list the children are collected in and that is then handed to the work list in one go
+        for c in walk_local(sf.node):
+            if isinstance(c, ast.Call) and isinstance(c.func, ast.Attribute) and c.func.attr == "extend" and norm(c.func.value) in worklists \
+                    and len(c.args) == 1 and isinstance(c.args[0], ast.Name):
+                worklists = worklists | {c.args[0].id}
+            if isinstance(c, ast.AugAssign) and isinstance(c.op, ast.Add) and norm(c.target) in worklists and isinstance(c.value, ast.Name):
+                worklists = worklists | {c.value.id}
         for c in walk_local(sf.node):
             if isinstance(c, ast.Call) and isinstance(c.func, ast.Attribute) and c.func.attr == "append" and norm(c.func.value) in worklists \
                     and any(isinstance(p, ast.For) and "children" in norm(p.iter) for p in parent_chain(c)):
@@ -1035,6 +1108,53 @@ def _selection_sets(f):
     return out
 
 
+def _no_loop_carried_parent(ctx, R, rid, closure):
+    """in the query modules a loop visits siblings (the pins of a wire, the children of a definition): the reference the siblings hang
+    under is the same for all of them.  A parent argument that the loop body itself rebinds to a reference built from it
+    (`href_inst = from_parent_and_item(href_inst, instance)` inside `for pin in wire.pins`) is one level deeper for every later sibling."""
+    R.rule(rid, "no loop-carried parent: inside a loop over siblings the parent of a factory call is not a name the loop body rebinds to a reference built under it")
+    P = ctx.P
+    n = 0
+    for m in H_MODULES:
+        mod = P.module(UTIL + m + ".py")
+        for fn, f in sorted(mod.functions.items()):
+            for lp in walk_local(f.node):
+                if not isinstance(lp, ast.For):
+                    continue
+                for a in (x for s_ in lp.body for x in ast.walk(s_)):
+                    if not (isinstance(a, ast.Assign) and len(a.targets) == 1 and isinstance(a.targets[0], ast.Name) and isinstance(a.value, ast.Call)
+                            and _is_href_factory(a.value) and len(a.value.args) == 2 and isinstance(a.value.args[0], ast.Name)):
+                        continue
+                    if closure is not None and _is_closure_site(f, a.value) != closure:
+                        continue
+                    n += 1
+                    v = a.targets[0].id
+                    inner = next((p_ for p_ in parent_chain(a) if isinstance(p_, (ast.For, ast.While))), None)
+                    if a.value.args[0].id == v and inner is lp:
+                        # (a work list popped at the top of the loop re-binds the name per element: `href = stack.pop()`)
+                        rebound_first = any(isinstance(s_, ast.Assign) and any(isinstance(t_, ast.Name) and t_.id == v for t_ in s_.targets)
+                                            and not (isinstance(s_.value, ast.Call) and _is_href_factory(s_.value)) for s_ in lp.body)
+                        in_target = any(isinstance(x, ast.Name) and x.id == v for x in ast.walk(lp.target))
+                        # what is built under the carried name must reach the caller (a yield): fed to the work list only, the closure
+                        # re-derives the pins from the wire and the result does not change (the twin of the removed H10, §7)
+                        tainted = {v}
+                        for x in (y for s_ in lp.body for y in ast.walk(s_)):
+                            if isinstance(x, ast.Assign) and len(x.targets) == 1 and isinstance(x.targets[0], ast.Name) and isinstance(x.value, ast.Call) \
+                                    and _is_href_factory(x.value) and x.value.args and isinstance(x.value.args[0], ast.Name) and x.value.args[0].id in tainted:
+                                tainted.add(x.targets[0].id)
+                        reaches_caller = any(isinstance(y, ast.Yield) and y.value is not None and any(isinstance(z, ast.Name) and z.id in tainted for z in ast.walk(y.value))
+                                             for s_ in lp.body for y in ast.walk(s_))
+                        if not rebound_first and not in_target and reaches_caller:
+                            R.bad(rid, "%s|loop-carried %s" % (f.key, v), f.loc(a),
+                                  "%s rebinds `%s` to a reference built under `%s` itself inside the loop over `%s`: the next element of the loop is "
+                                  "placed one level deeper (under the previous element) — invalid references are returned and the real ones are missing"
+                                  % (f.qualname, v, v, short(lp.iter, 40)))
+                            continue
+                    R.ok(rid, "%s: %s" % (f.qualname, short(a, 50)), f.loc(a))
+    R.count("factory assignments inside loops (%s)" % rid, n)
+    R.floor("factory assignments inside loops (%s)" % rid, 5)
+
+
 @register("C12",
           "Static analysis of the cross-hierarchy closure code: H3' kind inference of every hierarchical-reference chain built at the closure "
           "sites (the Wire/pin branches of the raw generators and the work-list helpers) — an ill-typed reference is never valid, so it is "
@@ -1044,10 +1164,11 @@ def _selection_sets(f):
           "around a parent link that can be None (element removed from its parent) is never yielded without a test in between; H11' yields of the "
           "raw generators and of the work-list closures are de-duplicated on the value yielded; H7b' / H13' the occurrence enumeration the traces "
           "start from is closed under discovery and no step is pruned on the absence of child instances (a cell may consist of wires only); H9 no exclusion "
-          "inside a closure helper compares bare items; H15 the branch that handles a hierarchical reference enumerates nothing over all occurrences. Decides "
+          "inside a closure helper compares bare items; H15 the branch that handles a hierarchical reference enumerates nothing over all occurrences; H16' no loop-carried parent (see C11) on the closure side. Decides "
           "well-formedness of what the closure builds; that the closure equals the electrical net for every start point is not decided.")
 def check_c12(ctx, R):
     P = ctx.P
+    _no_loop_carried_parent(ctx, R, "H16'", closure=True)
     R.rule("H3'", "chain typing of every closure-side factory call")
     n, typed = _typed_sites(ctx, R, "H3'", closure=True)
     R.count("closure factory sites (H3')", n)
